@@ -30,6 +30,7 @@ var consOpts = []consOpt{
 	9:  {"zone notExists", []refCons{{"zone", "notExists", nil}}},
 	10: {"zone in[z2,z3]+engine exists", []refCons{{"zone", "in", []string{"z2", "z3"}}, {"engine", "exists", nil}}},
 	11: {"zone in[z9]", []refCons{{"zone", "in", []string{"z9"}}}}, // no store matches
+	12: {"$mode in[ro]", []refCons{{"$mode", "in", []string{"ro"}}}},
 }
 
 var locOpts = [][]string{
@@ -90,13 +91,19 @@ var layoutSpecs = []layoutSpec{
 	3: {"three", []storeSpec{
 		st(1, "zone", "z1", "host", "h1"),
 		st(2, "zone", "z2", "host", "h1"),
-		st(3, "host", "h2"),
+		st(3, "host", "h2", "$mode", "ro"),
 	}},
 	4: {"four", []storeSpec{
 		st(1, "zone", "z1", "host", "h1"),
 		st(2, "zone", "z1", "host", "h2"),
 		st(3, "zone", "z2"),
 		st(4, "zone", "z3", "host", "h3", "engine", "tiflash"),
+	}},
+	5: {"four-plain", []storeSpec{
+		st(1, "zone", "z1", "host", "h1"),
+		st(2, "zone", "z1", "host", "h2"),
+		st(3, "zone", "z2", "host", "h1"),
+		st(4, "zone", "z3"),
 	}},
 }
 
@@ -252,10 +259,11 @@ func (sc *scope) build() {
 	for _, role := range sc.Roles {
 		for _, count := range sc.Counts {
 			for _, cons := range sc.Cons {
-				for _, loc := range sc.Locs {
-					if count == 1 && loc != 0 {
-						continue // location labels cannot matter for a single peer
-					}
+				locs := sc.Locs
+				if count == 1 {
+					locs = []int{0} // location labels cannot matter for a single peer
+				}
+				for _, loc := range locs {
 					spec := ruleSpec{role, count, cons, loc}
 					r := &rule{spec: spec, real: &placement.Rule{
 						GroupID: "pd", ID: spec.String(), Role: realRoles[role], Count: count,
@@ -339,7 +347,7 @@ func (sc *scope) bounds() map[string]interface{} {
 	}
 	return map[string]interface{}{
 		"scope": sc.Name, "rules_per_list": fmt.Sprintf("%d..%d", sc.MinRules, sc.MaxRules), "roles": roles, "counts": sc.Counts,
-		"constraint_lists": cons, "location_labels": locs, "rule_alphabet": len(sc.alphabet), "rule_lists": sc.total,
+		"constraint_lists": cons, "location_labels_for_count_ge_2": locs, "rule_alphabet": len(sc.alphabet), "rule_lists": sc.total,
 		"layouts": lays, "peers_per_region": fmt.Sprintf("%d..%d", sc.MinPeers, sc.MaxPeers), "leaderless_regions": sc.Leaderless,
 		"regions": "every subset of the layout's stores of that size x every voter/learner pattern x every leader among the voters",
 	}
